@@ -165,6 +165,8 @@ func (e *env) begin(gname, op string, n int) {
 
 type skel struct {
 	*env
+	running map[int]int // per frame: fn invocations entered and not yet returned
+	early   []string
 	limiter *semaphore.Weighted
 	tracker *verifhooks.Tracker
 	present map[int]bool
@@ -213,6 +215,9 @@ func (s *skel) callGo(ctx context.Context, ptid int, outer bool, items []int) er
 		return s.fn(ctx, region, n, fid)
 	}, items...)
 	s.mu.Lock()
+	if s.running[fid] != 0 {
+		s.early = append(s.early, fmt.Sprintf("syncutil.Go (frame %d) returned while %d of its tasks were still running", fid, s.running[fid]))
+	}
 	s.logf("goret:%d:%d", fid, b2i(err != nil))
 	s.mu.Unlock()
 	return err
@@ -223,6 +228,7 @@ func (s *skel) taskStart(fid, n int) int {
 	defer s.mu.Unlock()
 	tid := s.nextTid
 	s.nextTid++
+	s.running[fid]++
 	s.logf("start:%d:%d:%d", tid, fid, n)
 	return tid
 }
@@ -232,6 +238,7 @@ func (s *skel) outer(ctx context.Context, region *verifhooks.LimitedRegion, root
 	tid := s.taskStart(fid, root)
 	defer func() {
 		s.mu.Lock()
+		s.running[fid]--
 		s.logf("ret:%d:%d", tid, b2i(err != nil))
 		s.mu.Unlock()
 	}()
@@ -265,6 +272,7 @@ func (s *skel) fn(ctx context.Context, region *verifhooks.LimitedRegion, n int, 
 	committed := false
 	defer func() {
 		s.mu.Lock()
+		s.running[fid]--
 		s.logf("ret:%d:%d", tid, b2i(err != nil))
 		if committed && err == nil {
 			close(done) // mark the content as done on success
@@ -413,7 +421,7 @@ func runSkeleton(c *Case, g *dag.Graph, res *Result) (*skel, outcome) {
 	ctx, cancel := context.WithCancel(context.Background())
 	defer cancel()
 	s := &skel{env: newEnv(c, g, "skel"), limiter: semaphore.NewWeighted(int64(c.K)), tracker: verifhooks.NewTracker(),
-		present: map[int]bool{}}
+		present: map[int]bool{}, running: map[int]int{}}
 	s.cancel = cancel
 	for _, p := range c.Present {
 		s.present[p] = true
@@ -598,6 +606,7 @@ func runCase(c *Case) *Result {
 	events := append([]string(nil), s.events...)
 	firedA := s.fired
 	maxA := s.maxG["skel"]
+	earlyA := append([]string(nil), s.early...)
 	storA := msKeys(s.storage)
 	s.mu.Unlock()
 	var doneNodes []int
@@ -629,6 +638,9 @@ func runCase(c *Case) *Result {
 		if oa.leaked > 0 {
 			fail("goroutine-leak-skel", fmt.Sprintf("%d goroutines above the baseline after return", oa.leaked))
 		}
+	}
+	if len(earlyA) > 0 {
+		fail("go-returned-early", earlyA[0])
 	}
 	if maxA > c.K {
 		fail("inflight-skel", fmt.Sprintf("%d storage steps in flight with K=%d", maxA, c.K))
